@@ -19,7 +19,9 @@ RULE = (
     "Cases = synthesized recording (0..40 windows, incl. empty and event-free) x split parameters x reader (AudioReader "
     "over a harness source whose every read is a scheduling point, optionally wrapped in a started StreamSaverWorker) x "
     "observer multiset from {recording observer x0..3, PrintWorker, RegionSaverWorker, AudioEventsJoinerWorker} x a "
-    "schedule = list of 0..400 small integers choosing, at every yield point (queue put/get/get_nowait, thread start/exit, "
+    "order in which the threads are started (start_all, or the tokenizer before some or all observers) x "
+    "schedule = list of 0..400 small integers (one case in ten: a stream of 66-110 blocks whose consumers are starved, so "
+    "inboxes grow beyond 64 entries) choosing, at every yield point (queue put/get/get_nowait, thread start/exit, "
     "join, source read, observer callback), which enabled thread runs next - including when a queue wait times out; after "
     "the list a fair policy finishes the run. Oracle: each recording observer's log == [(i, bytes, start, end)] of "
     "split() over the same bytes and parameters, ids 1.., == the worker's detections list, == PrintWorker's lines; no "
@@ -29,7 +31,7 @@ RULE = (
     "first message and >= 10 context switches."
 )
 MUST_HIT = ["timeout_between_messages", "observer_busy_at_stop_marker", "zero_detections", "with_stream_saver",
-            "free_running_validation", "three_observers"]
+            "free_running_validation", "three_observers", "tokenizer_started_before_some_observer", "queue_backlog_ge_64"]
 ASSUMPTIONS = [
     "interleavings are explored at the granularity of queue operations, source reads, observer callbacks, thread start/exit and joins (DESIGN 3.4)",
     "liveness judged under the harness's fair continuation after the generated prefix",
@@ -103,10 +105,11 @@ def judge_files(run, case, exp, blocks):
         nsil, razor = exact_round(run.join_sil, sr)
         sil = b"\0" * (nsil * bps)
         want = sil.join(b for _i, b, _s, _e in exp)
-        alt = (b"\0" * ((nsil + 1) * bps)).join(b for _i, b, _s, _e in exp) if razor else want
+        # inside the razor (exact product within 1e-9 of, but not on, a .5 boundary) either neighbour is accepted
+        alts = [want] + ([(b"\0" * (n * bps)).join(b for _i, b, _s, _e in exp) for n in (nsil + 1, max(nsil - 1, 0))] if razor else [])
         if params != (sr, sw, ch):
             raise Violation(f"joined file header {params} != {(sr, sw, ch)}", case)
-        if frames not in (want, alt):
+        if frames not in alts:
             raise Violation(
                 f"joined file holds {len(frames) // bps} samples, expected {len(want) // bps} "
                 f"({len(exp)} events separated by {nsil} zero samples)", case)
@@ -168,6 +171,12 @@ def check_case(case, rec):
             classes.add("with_stream_saver")
         if len(case["observers"]) >= 3:
             classes.add("three_observers")
+        if case.get("start", "start_all") != "start_all":
+            classes.add("tokenizer_started_before_some_observer")
+        if case.get("long"):
+            qmax = max([max((q for _m, q in w._inbox.put_log), default=0) for w in run.workers] or [0])
+            if qmax >= 64:
+                classes.add("queue_backlog_ge_64")
         # an observer still had unprocessed messages when the stop marker was queued
         if any(len(o.log) == len(exp) for o in run.recs) and len(exp) >= 1:
             for o in run.recs:
@@ -219,6 +228,10 @@ def explicit_cases():
         {"audio": dict(a, pat="", tail=[0, 0]), "win": [1, 3, 0, False, False], "saver": None, "observers": [], "choices": []},
         {"audio": a, "win": [1, 2, 0, False, False], "saver": None, "observers": ["rec"],
          "choices": [1] * 40 + [0] * 40 + [2] * 40},
+        {"audio": a, "win": [2, 4, 1, False, False], "saver": None, "observers": ["rec", "rec", "print"],
+         "choices": [-1] * 30 + [0, 1, 2] * 20, "start": "tokenizer_first"},
+        {"audio": dict(a, B=1, pat="10" * 45, tail=[0, 0]), "win": [1, 1, 0, False, False], "saver": {"cache": 0.0},
+         "observers": ["rec"], "choices": [-1] * 700, "long": True},
     ]
 
 
@@ -238,7 +251,7 @@ def strategy(draw, maxwin, free=False):
     B, sr = c["audio"]["B"], c["audio"]["sr"]
     c["saver"] = draw(st.one_of(st.none(), st.builds(
         lambda x: {"cache": x}, st.sampled_from([0, 0.5 / sr, B / sr / 2, B / sr, 3 * B / sr, 1000.0]))))
-    c["join_sil"] = [draw(st.integers(0, 5)), draw(st.sampled_from([0, 0.25, 0.75]))]
+    c["join_sil"] = [draw(st.integers(0, 5)), draw(st.sampled_from([0, 0.25, 0.5, 0.75]))]
     c["tmpl"] = draw(TMPL)
     c["ext"] = draw(st.sampled_from(["wav", "raw"]))
     nthreads = 2 + len(obs)
@@ -247,6 +260,19 @@ def strategy(draw, maxwin, free=False):
         st.lists(st.integers(0, nthreads), min_size=30, max_size=120).map(
             lambda l: [x for x in l for _ in range(4)]),   # bursty: each thread runs for a while
     ))
+    c["start"] = draw(st.sampled_from(["start_all", "start_all", "start_all", "tokenizer_first", "tokenizer_middle"]))
+    r = draw(st.integers(0, 9))
+    if r == 0:
+        # a long stream whose consumers are starved: the last-registered thread (the tokenizer) keeps
+        # the baton, so queues grow to the length of the stream (choice -1 = last enabled thread)
+        n = draw(st.integers(66, 110))
+        c["audio"]["B"] = 1
+        c["audio"]["tail"] = [0, 0]
+        c["audio"]["pat"] = ("".join(draw(st.lists(st.sampled_from(["10", "110", "0", "1"]), min_size=40, max_size=40))) * 4)[:n]
+        c["win"] = [1, draw(st.integers(1, 3)), 0, c["win"][3], c["win"][4]]
+        c["choices"] = [-1] * draw(st.integers(300, 900)) + c["choices"][:50]
+        c["long"] = True
+        c["start"] = "start_all"
     return c
 
 
